@@ -7,7 +7,8 @@ F = "comb_spec_searcher/strategies/rule.py"
 Any = Opaque("Any")
 JD = Dict(Str, Any)
 for c, b in (("EquivalenceRule", "Rule"), ("EquivalencePathRule", "Rule"), ("VerificationRule", "AbstractRule")):
-    klass(F, c, bases=[b], fields={})
+    if c not in REG.classes:
+        klass(F, c, bases=[b], fields={})
 
 _DISPATCH = ['"class_module"', '"rule_class"']
 PAIRS = {
